@@ -683,7 +683,7 @@ def _may_precede(pos, w, u, decl):
     return bool((set(lw) & set(lu)) - set(ld))
 
 
-def _input_writes(init, body):
+def _input_writes(init, body, identity_only=False):
     """nodes of body that write something the pure expression `init` reads: assigned locals / parameters, directly written
        fields, and calls (which may write anything the expression reads from memory)"""
     from .astq import direct_writes
@@ -697,9 +697,11 @@ def _input_writes(init, body):
         elif k == 'mem':
             fields.add((n.get('cls'), n.get('name')))
             b_ = _strip(n.get('base'))
-            if not (isinstance(b_, dict) and b_.get('k') == 'this'):
+            if not identity_only:
+                reads_memory = True        # a value read from memory: any call (unlock(), a handler) may separate it from its use
+            elif not (isinstance(b_, dict) and b_.get('k') == 'this'):
                 reads_memory = reads_memory or not (isinstance(b_, dict) and b_.get('k') == 'opcall' and str(b_.get('cls', '')).startswith('std::unique_ptr<'))
-        elif k == 'opcall' and n.get('op') in ('[]', '*', '->') and str(n.get('cls', '')).startswith(('std::unique_ptr<', 'std::array<')):
+        elif identity_only and k == 'opcall' and n.get('op') in ('[]', '*', '->') and str(n.get('cls', '')).startswith(('std::unique_ptr<', 'std::array<')):
             pass        # owning pointer / fixed array of the object itself: identity decided by the member, not by other memory
         elif k in ('index',) or (k == 'opcall' and n.get('op') in ('[]', '*', '->')) or (k == 'un' and n.get('op') == '*') or k == 'call':
             reads_memory = True
@@ -760,7 +762,7 @@ def _stable_until_uses(decl_stmt, var, init, body, uses, pos=None, alias=False):
     if alias:
         writes = []
         for part in _path_inputs(init):
-            writes += _input_writes(part, body)
+            writes += _input_writes(part, body, identity_only=True)
     else:
         writes = _input_writes(init, body)
     for w in writes:
